@@ -6,6 +6,8 @@ basis column (bilinear: every (w, x) basis pair) is pushed through the real func
 entry by entry with mc.ref.sigma and with the algebraic identities of the property.  The maps are
 (bi)linear, so agreement on the basis is agreement on all data for that level set (linearity itself is
 checked on all pairwise superpositions with the amplitude palette).
+
+Extensions after the seeded-breakage rounds (DESIGN.md 8.5): Long columns (65 ... 640, thorough 1025 geometric layers) cover cumulative-sum strategies that depend on the length of the axis.
 """
 import itertools
 import numpy as np
